@@ -10,47 +10,46 @@ from pydv.core import ctx, OutOfSubset
 
 CLAIM = {
     "claimed": True,
-    "category": "other",
-    "text": "BOUNDED (in tensor shapes) deductive verification, not counted as an unbounded proof. The real Interp1D / LinearInterp1D / CubicSpline1D / _get_spline_mat_inv / extrapolation code executed on tensors "
-            "of concrete small shapes whose entries are symbolic reals (3 to 6 knots, 1 to 7 queries, all real sample "
-            "positions, values and query points at once): on every sample interval [x_j, x_j+1] the result equals the "
-            "linear interpolant, resp. the cubic Hermite polynomial with end values y_j, y_j+1 and end slopes k_j, k_j+1, "
-            "for both internal evaluation formulas (more / fewer queries than knots); the sample values are returned "
-            "at the sample positions; the slopes k (defined by the solved system) make the second derivative continuous "
-            "at every interior knot and satisfy the boundary condition (natural: S''=0 at both ends; clamped: S'=0 at "
-            "both ends; not-a-knot: S''' continuous at the second and the last-but-one knot; periodic: S' and S'' agree "
-            "at the two ends); results are identical whether y is given at construction or at call time (given twice: "
-            "the constructor's value is used and a warning is issued; never: RuntimeError), for samples given in any "
-            "order (sorted together with their values), for batched y; outside the range each extrapolation mode gives "
-            "its documented value (nan, constant, callable, bound = nearest end, mirror = triangle wave, periodic = "
-            "wrapped position) at exactly the outside queries, the default mode follows the boundary condition, and "
-            "batched extrapolation is rejected.",
-    "note": "Additionally proved for EVERY number of knots and queries (tensors of symbolic length, generic position and "
-            "interval; units any_size[*]): the interval search finds an interval containing the query and both evaluation "
-            "formulas of LinearInterp1D._interp and CubicSpline1D._interp (given the slopes) equal the interpolant on every "
-            "interval containing the query, with all gather indices in range. Everything else is "
-            "bounded in the tensor shapes (stated per unit), unbounded in the values: each obligation is a proof for all "
-            "real entries. Assumed: linalg.solve returns a solution of its system (torch raises for a singular matrix), "
-            "searchsorted/gather/sort/clamp semantics as written in pydv/arr.py, floats are reals. Not decided: "
-            "differentiation (all operations are differentiable torch operations; nothing custom) and the constructor "
-            "failing when x requires grad (torch run-time behaviour).",
-    "design_ref": "DESIGN.md section 6 C14",
+    "category": "proof",
+    "text": "For EVERY number of knots nr and queries nq (tensors of symbolic length, units any_size[*]), sorted 1-D sample "
+            "positions, y given at construction: (i) the interval search of LinearInterp1D._interp / CubicSpline1D._interp "
+            "finds an interval containing each in-range query with all gather indices in range, and both internal evaluation "
+            "formulas (more / not more queries than knots) return the linear interpolant, resp. the cubic Hermite polynomial "
+            "with end values y_j, y_j+1 and end slopes k_j, k_j+1, on every interval containing the query (hence the sample "
+            "values at the sample positions); (ii) the slopes computed by the real CubicSpline1D.__init__ / _get_spline_mat_inv "
+            "(linalg.solve replaced by its contract) make the second derivative continuous at every interior knot and satisfy "
+            "the boundary condition - natural: second derivative 0 at both ends; clamped: first derivative 0 at both ends; "
+            "not-a-knot: third derivative continuous at the second and last-but-one knot; periodic: first and second derivative "
+            "agree at the two ends - and are the slopes the evaluation uses. BOUNDED in the tensor shapes (all values; reported "
+            "under bounded_obligations, not counted as proved; 3 to 6 knots, 1 to 7 queries, batch 2): y given at call time or "
+            "twice (warning) or never (RuntimeError), samples given in any order, batched y and x, reuse of one object with "
+            "different y, every extrapolation mode (nan, constant, callable, bound, mirror, periodic) at exactly the outside "
+            "queries, default mode per boundary condition, rejection of batched extrapolation, unknown method / boundary condition.",
+    "note": "Assumed: linalg.solve returns a solution of its system (torch raises for a singular matrix); matrix products "
+            "are associative; contract of searchsorted / gather / clamp as written in pydv/lam.py and pydv/arr.py; floats are reals. "
+            "Not decided: differentiation (all operations are differentiable torch operations; nothing custom; a bounded "
+            "gradient oracle runs on real torch) and the constructor failing when x requires grad (torch run-time behaviour).",
+    "design_ref": "DESIGN.md sections 6 C14 and 11.8",
 }
 
 META = {
-    "level": "other",
-    "explanation": "bounded deductive verification: every obligation is proved by z3/cvc5 for all real values of the tensor entries, "
-                   "for each of the executed tensor shapes (3..6 knots, 1..7 queries, batch 2); nothing is claimed for other shapes",
+    "level": "proof",
+    "shape_bounded_by_default": True,
+    "unbounded_units": ["any_size["],
+    "explanation": "units any_size[*]: proofs for every number of knots and queries (LAM domain); every other unit is a proof for all "
+                   "values at the tensor shapes it executes (3..6 knots, 1..7 queries, batch 2) and is reported under bounded_obligations",
     "files": ["xitorch/interpolate/interp1.py", "xitorch/_impls/interpolate/interp_1d.py", "xitorch/_impls/interpolate/extrap_utils.py",
               "xitorch/_utils/bcast.py"],
-    "functions_under_contract": ["xitorch.interpolate.interp1:Interp1D.__init__/__call__",
-                                 "xitorch._impls.interpolate.interp_1d:BaseInterp1D.__call__, LinearInterp1D._interp, CubicSpline1D.__init__/_interp, "
-                                 "_get_spline_mat_inv, check_and_get_extrap, check_periodic_value",
-                                 "xitorch._impls.interpolate.extrap_utils:get_extrap_pos, get_extrap_val", "xitorch._utils.bcast:match_dim"],
-    "trusted_base": ["pydv/arr.py: element-wise meaning of the torch operations used, views alias their base",
-                     "pydv/lam.py: tensors of symbolic length as functions of the index; contract of searchsorted", "linalg.solve returns a solution",
-                     "floats are reals", "z3 / cvc5 nonlinear real arithmetic"],
-    "assumptions": ["shapes: 3..6 knots, 1..7 queries, batch 2", "floats are reals"],
+    "functions_under_contract": ["xitorch._impls.interpolate.interp_1d:LinearInterp1D._interp, CubicSpline1D.__init__/_interp, "
+                                 "_get_spline_mat_inv (all sizes)",
+                                 "xitorch.interpolate.interp1:Interp1D.__init__/__call__; BaseInterp1D.__call__, check_and_get_extrap, "
+                                 "check_periodic_value; xitorch._impls.interpolate.extrap_utils:get_extrap_pos, get_extrap_val; "
+                                 "xitorch._utils.bcast:match_dim (bounded shapes)"],
+    "trusted_base": ["pydv/lam.py: tensors of symbolic length as functions of the index; views write through; contract of searchsorted",
+                     "pydv/arr.py: element-wise meaning of the torch operations used, views alias their base (bounded units)",
+                     "linalg.solve returns a solution", "matrix products are associative", "floats are reals", "z3 / cvc5 nonlinear real arithmetic"],
+    "assumptions": ["any-size units: sorted 1-D x, y given at construction; everything else at shapes 3..6 knots, 1..7 queries, batch 2",
+                    "floats are reals", "periodic: y[0] == y[-1] (the library's documented requirement; check_periodic_value enforces it)"],
     "not_applicable_parts": ["derivatives of the result (torch autograd of standard operations)", "x requiring grad at construction"],
     "min_obligations": 40,
 }
@@ -614,8 +613,8 @@ def unit_extrap(method, mode, n=4):
         tag = "extrap[%s,%s]" % (method, mode)
         opts = {} if method == "linear" else {"bc_type": "natural"}
         cval = None
-        if mode == "constant":
-            cval = 2.5
+        if mode in ("constant", "zero_constant", "int_zero_constant"):
+            cval = {"constant": 2.5, "zero_constant": 0.0, "int_zero_constant": 0}[mode]     # a constant that happens to be falsy is a constant too
             opts["extrap"] = cval
         elif mode == "tensor_constant":
             cval = arr.sym("cval", (1,))
@@ -638,7 +637,8 @@ def unit_extrap(method, mode, n=4):
             opts["extrap"] = mode
             if mode == "periodic":
                 c.assume(y.a[0] == y.a[n - 1])
-        eff = {"default_clamped": "mirror", "default_periodic": "periodic", "default_other": "nan"}.get(mode, mode)
+        eff = {"default_clamped": "mirror", "default_periodic": "periodic", "default_other": "nan", "zero_constant": "constant",
+               "int_zero_constant": "constant"}.get(mode, mode)
         seen = []
         with arr_torch() as m:
             ok, obj = kit.call_or_fail(c, tag + ":constructor_does_not_raise", lambda: m["ip"].Interp1D(x, y, method=method, assume_sorted=True, **opts))
@@ -699,7 +699,7 @@ def unit_extrap(method, mode, n=4):
             if eff == "nan":
                 c.check(tag + ":outside_value_is_nan", z3.eq(z3.simplify(out.a[p]), arr.NAN))
             elif eff in ("constant", "tensor_constant"):
-                want = z3.RealVal("2.5") if eff == "constant" else cval.a[0]
+                want = z3.RealVal(repr(float(cval))) if eff == "constant" else cval.a[0]
                 prove_sub(tag + ":outside_value_is_the_constant", out.a[p] == want)
             elif eff == "callable":
                 prove_sub(tag + ":outside_value_is_the_callable_at_the_query", out.a[p] == z3.Function("g", z3.RealSort(), z3.RealSort())(q.a[p]))
@@ -805,7 +805,7 @@ def units(tier):
     for mth, mode in (("linear", "nan"), ("linear", "constant"), ("linear", "tensor_constant"), ("linear", "callable"), ("linear", "bound"),
                       ("linear", "mirror"), ("linear", "periodic"), ("cspline", "nan"), ("cspline", "bound"), ("cspline", "mirror"),
                       ("cspline", "periodic"), ("cspline", "default_clamped"), ("cspline", "default_periodic"), ("cspline", "default_other"),
-                      ("cspline", "callable")):
+                      ("cspline", "callable"), ("cspline", "zero_constant"), ("cspline", "int_zero_constant"), ("linear", "zero_constant")):
         add("extrap[%s,%s]" % (mth, mode), lambda mth=mth, mode=mode: unit_extrap(mth, mode))
     add("extrap_batched", unit_extrap_batched)
     add("gradients_bounded", unit_gradients_bounded)
